@@ -1376,6 +1376,13 @@ def fold_call(callee, args):
             return mk_some(args[1])
         if cvb == 0:
             return NONE_TERM
+    if (nc.endswith('FromResidual>::from_residual') or nc.endswith('FromResidual::from_residual')) and a[0] == 'agg':
+        # `?` re-raising an error value built on this path (by an inlined helper): Err(e) stays Err(e)
+        # (the From conversion of the payload is not modelled), None stays None
+        if a[1].endswith('result::Result') and a[2] == 'Err' and len(a[3]) == 1:
+            return ('agg', RES, 'Err', a[3], '0')
+        if a[1].endswith('option::Option') and a[2] == 'None':
+            return NONE_TERM
     if nc.endswith('Try>::branch') or nc.endswith('Try::branch'):
         # `?` applied to the value an inlined helper returned through its own `?`, or to a value built
         # on this path
